@@ -781,6 +781,30 @@ theorem axl2axi_wiring (c : L2XCfg) (m : AxlM) (r : AxiS) :
     o.rvalid = r.rvalid ∧ o.rresp = r.rresp ∧ o.rdata = r.rdata := by
   simp [Axl2Axi.toSlave, Axl2Axi.toMaster]
 
+/-- **The announced AxSIZE is the bus width, for ALL widths.**  `AXILite2AXI` (and `Wishbone2AXI`, which contains it)
+    on a `dw`-bit bus announce `size = log2(dw / 8)` on AW and AR (`Axl2Axi.cfgOf`, the configuration the driver
+    serves and the harness compares for 32 … 1024 bits): for every width `8·2^k` this is exactly `k` (full-width
+    beats), and for every `dw ≥ 8` the announced beat never exceeds the data bus: `2^size · 8 ≤ dw`.
+    (`axi_common.AXSIZE`, a table nobody uses, lists 0b110 / 0b111 for 32 / 64 bytes — a bridge built on it would
+    break this theorem's tie at 256 and 512 bits.) -/
+theorem axl2axi_size_fits_bus (dw burst prot wid rid : Nat) (m : AxlM) :
+    let q := Axl2Axi.toSlave (Axl2Axi.cfgOf dw burst prot wid rid) m
+    q.aw.size = Nat.log2 (dw / 8) ∧ q.ar.size = Nat.log2 (dw / 8) ∧ q.aw.len = 0 ∧ q.ar.len = 0 ∧
+    (8 ≤ dw → 2 ^ q.aw.size * 8 ≤ dw ∧ 2 ^ q.ar.size * 8 ≤ dw) ∧
+    (∀ k, dw = 8 * 2 ^ k → q.aw.size = k ∧ q.ar.size = k) := by
+  refine ⟨rfl, rfl, rfl, rfl, fun h => ?_, fun k hk => ?_⟩
+  · have hne : dw / 8 ≠ 0 := by omega
+    have h1 : 2 ^ Nat.log2 (dw / 8) ≤ dw / 8 := Nat.log2_self_le hne
+    have h2 : dw / 8 * 8 ≤ dw := Nat.div_mul_le_self dw 8
+    have h3 : 2 ^ Nat.log2 (dw / 8) * 8 ≤ dw / 8 * 8 := Nat.mul_le_mul_right 8 h1
+    simp only [Axl2Axi.toSlave, Axl2Axi.cfgOf, Axl2Axi.sizeOf]
+    omega
+  · have : dw / 8 = 2 ^ k := by rw [hk, Nat.mul_div_cancel_left _ (by decide : 0 < 8)]
+    simp [Axl2Axi.toSlave, Axl2Axi.cfgOf, Axl2Axi.sizeOf, this, Nat.log2_two_pow]
+
+/-- 256, 512 and 1024 bits: sizes 5, 6, 7. -/
+example : Axl2Axi.sizeOf 256 = 5 ∧ Axl2Axi.sizeOf 512 = 6 ∧ Axl2Axi.sizeOf 1024 = 7 ∧ Axl2Axi.sizeOf 32 = 2 := by decide
+
 end AdapterThms
 
 /-! ## A chain composed at cycle level: AXILiteDownConverter ; AXILite2Wishbone -/
